@@ -16,7 +16,7 @@ RULE = (
     "log, discover response, wake-ups) and controller calls, with periodic-save ticks (the fake threading.Timer "
     "callback is fired by the harness) at drawn positions - biased so that a tick falls right before the last "
     "state change - ended by stop(); in a third of the cases a second gateway with its own file lives in the same process "
-    "and its traffic and periodic saves are interleaved; the file is named absolutely, by bare name, as ./name or below a sub-directory of the working directory. Oracle: typed projection before stop() == typed projection of a fresh "
+    "and its traffic and periodic saves are interleaved; in a quarter of the cases a file of a previous run exists and the first messages are handled before start_persistence() is called (sometimes called twice); the file is named absolutely, by bare name, as ./name or below a sub-directory of the working directory. Oracle: typed projection before stop() == typed projection of a fresh "
     "gateway after start_persistence() on the same file. Non-trivial = >= 1 tick strictly between two state "
     "changes and the last state change after the last tick; distinct by (version, format, kind of last change, "
     "history hash)."
@@ -57,6 +57,13 @@ def cases(draw):
         ops.append({"op": "line", "text": tail})
     case = {"version": version, "ext": draw(st.sampled_from(["json", "pickle"])), "ops": ops, "tail": tail_kind}
     case["shape"] = draw(st.sampled_from(["abs", "abs", "bare", "dot", "sub"]))  # how the application names the file
+    if draw(st.integers(0, 3)) == 0:
+        # a file from a previous run exists, and the first messages of this run are handled BEFORE the application
+        # calls start_persistence() (the transport is started first); now and then it calls it a second time
+        case["previous"] = [f"{n};255;0;0;17;2.0" for n in draw(st.lists(st.integers(30, 34), min_size=1, max_size=2, unique=True))]
+        case["early"] = draw(st.integers(1, max(1, len(ops))))
+        if draw(st.integers(0, 2)) == 0:
+            ops.insert(draw(st.integers(0, len(ops))), {"op": "start_again"})
     if draw(st.integers(0, 2)) == 0:
         # a second gateway with its own persistence file lives in the same process (two serial ports, say):
         # its traffic and its periodic saves are interleaved with the history
@@ -89,13 +96,27 @@ def _check_case(case, stats=None):
         elif shape == "sub":
             os.chdir(os.path.dirname(tmp))
             given = f"{os.path.basename(tmp)}/net.{case['ext']}"
-        life = persist.Lifetime(fake, version, given)
+        if case.get("previous"):
+            life0 = persist.Lifetime(fake, version, given)
+            apply_ops(life0.driver, [{"op": "line", "text": t} for t in case["previous"]])
+            life0.stop()
+        life = persist.Lifetime(fake, version, given, start=not case.get("early"))
+        started = not case.get("early")
         other = persist.Lifetime(fake, version, os.path.join(tmp, f"other.{case['ext']}")) if case.get("neighbour") else None
         changes_since_tick = 0
         tick_between = False
         changes = 0
         prev = drive.typed(life.projection())
-        for op in case["ops"]:
+        for index, op in enumerate(case["ops"]):
+            if not started and index >= case["early"]:
+                life.start()
+                started = True
+                prev = drive.typed(life.projection())
+            if op["op"] == "start_again":
+                if started:
+                    life.start()
+                    prev = drive.typed(life.projection())
+                continue
             if op["op"] in ("ntick", "nline"):
                 if other is not None:
                     if op["op"] == "ntick":
@@ -121,6 +142,9 @@ def _check_case(case, stats=None):
                 changes += 1
                 changes_since_tick += 1
                 prev = cur
+        if not started:
+            life.start()
+            prev = drive.typed(life.projection())
         before = prev
         try:
             life.stop()
